@@ -771,9 +771,11 @@ def make_scan_doc(rng, size):
         c = rng.random()
         if c < 0.3:
             sep("prose")
-            for _ in range(rng.randint(1, 2)):
-                lines.append(L("", prose(rng, "paragraph", "plain", all_names, 0).split("\n")[0], "p"))
-            state["eat"], state["last"] = False, "prose"
+            pk = rng.choice(["paragraph", "paragraph", "paragraph", "bullets", "numbered", "quote", "break", "table", "subsection"])
+            eats = pk in ("table", "subsection")      # their parsers end with whitespace0
+            tags["prose_" + pk] = 1
+            lines.extend(text_lines(prose(rng, pk, "plain", all_names, rng.randint(1, 9)), "e" if eats else "p"))
+            state["eat"], state["last"] = eats, "prose"
         elif c < 0.5:
             # plain fence that shows how a fence is written: a whole fence of the OTHER sigil type inside
             sig = rng.choice(["```", "~~~"])
